@@ -5,6 +5,8 @@
 #   lean      module under Acra.Gen.Src        name     Lean def name (default: func)
 #   params    {parameter: "int" | "bytes" | "ints" | (Class, [(attribute, type), …])}; annotated int / bytes
 #             parameters need no entry
+#   ranges    {parameter or obj.attr: (lo, hi)}: hypotheses of the generated definition (needed where exactness of
+#             an operation depends on magnitudes, e.g. Decimal's 28 digits)
 #   prefix_upto / from_var   sub-translation of the integer part of a function with a float part
 #   prop / theorem           the property the function is anchored in and its tie theorem
 _PTP = ("PTPTime", [("seconds", "int"), ("nanoseconds", "int")])
@@ -31,6 +33,17 @@ SRC = [
        params={"self": _PTP, "val": _PTP}, prop="C15", theorem="src_PTPTime_le"),
   dict(file="AcraNetwork/IRIG106/Chapter11/__init__.py", lean="Chapter11", func="PTPTime.__eq__",
        params={"self": _PTP, "__value": _PTP}, prop="C15", theorem="src_PTPTime_eq"),
+  # float `%` and `//` by 1e9: exact while |addns| < 2^53; ranges of the wire format as hypotheses
+  dict(file="AcraNetwork/IRIG106/Chapter11/__init__.py", lean="Chapter11", func="PTPTime.__add__",
+       params={"self": _PTP, "val": _PTP},
+       ranges={"self.seconds": (0, 2**32 - 1), "self.nanoseconds": (0, 2**32 - 1),
+               "val.seconds": (0, 2**32 - 1), "val.nanoseconds": (0, 2**32 - 1)},
+       prop="C15", theorem="src_PTPTime_add"),
+  # Decimal arithmetic: exact only while results have <= 28 digits; the attribute ranges are those of the wire
+  # format ("<II") and become hypotheses of the generated definition
+  dict(file="AcraNetwork/IRIG106/Chapter11/__init__.py", lean="Chapter11", func="PTPTime.to_pinksheet_rtc",
+       params={"self": _PTP}, ranges={"self.seconds": (0, 2**32 - 1), "self.nanoseconds": (0, 2**32 - 1)},
+       prop="C15", theorem="src_PTPTime_to_pinksheet_rtc"),
   dict(file="AcraNetwork/IRIG106/Chapter11/__init__.py", lean="Chapter11", func="get_checksum_buf",
        prop="C07", theorem="src_get_checksum_buf"),
   dict(file="AcraNetwork/IRIG106/Chapter11/__init__.py", lean="Chapter11", func="get_checksum_byte_buf",
